@@ -4,7 +4,7 @@ import numpy as np
 
 class ArrayPressureProfile(PressureProfile):
 
-    def __init__(self, array, reverse=False):
+    def __init__(self, array=None, reverse=False):
         
         super().__init__(self.__class__.__name__, array.shape[-1])
         if reverse:
@@ -30,6 +30,9 @@ class ArrayPressureProfile(PressureProfile):
 
     def write(self, output):
         pressure = super().write(output)
+        # the constructor argument, in the order in use (so `reverse`
+        # keeps its default when the profile is rebuilt from the file)
+        pressure.write_array('array', self.pressure_profile)
 
         return pressure
 
